@@ -311,12 +311,18 @@ func evalC17(op string, args []string) string {
 	gen0 := opts.generator()
 	func() {
 		defer func() { recover() }()
-		gen0.Generate(dsParseDict("-:5072696f72:200:1:-:-:-:-,-:5072696f722d496e74:201:5:-:-:1:-,v0:56656e2d41:1:1:-:-:-:-,v0:56656e2d42:2:5:-:2:-:-",
-			"-:5072696f722d496e74:4f6e65:1,v0:56656e2d42:54776f:2", "v0:5072696f7256:4242:-:-"))
+		prior := dsParseDict("-:5072696f72:200:1:-:-:-:-,-:5072696f722d496e74:201:5:-:-:1:-,v0:56656e2d41:1:1:-:-:-:-,v0:56656e2d42:2:5:-:2:-:-",
+			"-:5072696f722d496e74:4f6e65:1,v0:56656e2d42:54776f:2", "v0:5072696f7256:4242:-:-")
+		// (a VALUE for every external attribute of this Generator, so that the prior run has gone
+		// through the external-attribute code as well)
+		for name := range opts.refs {
+			prior.Values = append(prior.Values, &dictionary.Value{Attribute: name, Name: "Prior-Ext", Number: 4242})
+		}
+		gen0.Generate(prior)
 	}()
 	out, err := gen0.Generate(dict)
 	// a second run on the SAME *Dictionary value: Generate must not have modified its argument
-	outSame, errSame := opts.generator().Generate(dict)
+	outSame, errSame := gen0.Generate(dict)
 	sameOK := (errSame != nil) == (err != nil) && (err != nil || bytes.Equal(out, outSame))
 	if !sameOK && err != nil {
 		return "ok fmt=0 rerun=0 perm=0 compiles=0:second_run_on_the_same_dictionary_differs - -"
@@ -723,6 +729,77 @@ func genC17(g *Gen, tier string, emit func(op string, args ...string)) {
 		d := &dictionary.Dictionary{Attributes: []*dictionary.Attribute{{Name: n, OID: dictionary.OID{1}, Type: dictionary.AttributeInteger}},
 			Values: []*dictionary.Value{{Attribute: n, Name: n, Number: 1}}}
 		c17Emit(emit, d, dsGenOpts{pkg: "p"})
+	}
+	// 3a. the ignore list and the imports: the ONLY attribute whose kind needs a package is ignored
+	//     (top-level and inside a vendor), next to a plain text attribute that stays
+	for t := 1; t <= 17; t++ {
+		for _, inVendor := range []bool{false, true} {
+			for _, enc := range []dictionary.IntFlag{{}, {Int: 2, Valid: true}} {
+				ign := &dictionary.Attribute{Name: "Ignored-One", OID: dictionary.OID{7}, Type: dictionary.AttributeType(t), FlagEncrypt: enc}
+				keep := &dictionary.Attribute{Name: "Kept-Text", OID: dictionary.OID{8}, Type: dictionary.AttributeString}
+				d := &dictionary.Dictionary{}
+				if inVendor {
+					d.Vendors = []*dictionary.Vendor{{Name: "Ven-Dor", Number: 99, Attributes: []*dictionary.Attribute{ign, keep}}}
+				} else {
+					d.Attributes = []*dictionary.Attribute{ign, keep}
+				}
+				c17Emit(emit, d, dsGenOpts{pkg: "p", ignore: []string{"Ignored-One"}})
+				// … and with a VALUE of the ignored attribute
+				d2 := *d
+				if inVendor {
+					v2 := *d.Vendors[0]
+					v2.Values = []*dictionary.Value{{Attribute: "Ignored-One", Name: "V", Number: 1}}
+					d2.Vendors = []*dictionary.Vendor{&v2}
+				} else {
+					d2.Values = []*dictionary.Value{{Attribute: "Ignored-One", Name: "V", Number: 1}}
+				}
+				c17Emit(emit, &d2, dsGenOpts{pkg: "p", ignore: []string{"Ignored-One"}})
+			}
+		}
+	}
+	// 3b. the SAME declaration twice (word for word) in every pair of scopes: top-level twice, top-level
+	//     and a vendor, two vendors, one vendor twice; identical, and differing in one field
+	for _, t := range []dictionary.AttributeType{dictionary.AttributeString, dictionary.AttributeInteger, dictionary.AttributeIPAddr, dictionary.AttributeVSA} {
+		mk := func(oid int, size bool) *dictionary.Attribute {
+			a := &dictionary.Attribute{Name: "Twice-Declared", OID: dictionary.OID{oid}, Type: t}
+			if size {
+				a.Size = dictionary.IntFlag{Int: 4, Valid: true}
+			}
+			return a
+		}
+		for _, variant := range []int{0, 1, 2} { // 0 identical, 1 other number, 2 other size
+			b := mk(5, false)
+			if variant == 1 {
+				b = mk(6, false)
+			} else if variant == 2 {
+				b = mk(5, true)
+			}
+			a := mk(5, false)
+			ven := func(name string, num int, as ...*dictionary.Attribute) *dictionary.Vendor {
+				return &dictionary.Vendor{Name: name, Number: num, Attributes: as}
+			}
+			for _, d := range []*dictionary.Dictionary{
+				{Attributes: []*dictionary.Attribute{a, b}},
+				{Attributes: []*dictionary.Attribute{a}, Vendors: []*dictionary.Vendor{ven("Ven-A", 11, b)}},
+				{Vendors: []*dictionary.Vendor{ven("Ven-A", 11, a), ven("Ven-B", 12, b)}},
+				{Vendors: []*dictionary.Vendor{ven("Ven-A", 11, a, b)}},
+			} {
+				c17Emit(emit, d, dsGenOpts{pkg: "p"})
+			}
+		}
+	}
+	// 3c. external attributes with VALUEs (the Generator value is used for a second dictionary, see evalC17)
+	for k := 1; k <= 3; k++ {
+		o := dsGenOpts{pkg: "p", refs: map[string]string{}}
+		d := &dictionary.Dictionary{Attributes: []*dictionary.Attribute{{Name: "Local-Int", OID: dictionary.OID{9}, Type: dictionary.AttributeInteger}},
+			Values: []*dictionary.Value{{Attribute: "Local-Int", Name: "One", Number: 1}}}
+		for i := 0; i < k; i++ {
+			r := c17Refs[i%len(c17Refs)]
+			o.refs[r[0]] = r[1]
+			d.Values = append(d.Values, &dictionary.Value{Attribute: r[0], Name: "Zz-Ext" + strconv.Itoa(i), Number: uint64(1000 + i)})
+		}
+		c17Emit(emit, d, o)
+		c17Emit(emit, &dictionary.Dictionary{Attributes: d.Attributes}, o) // same refs, no external VALUE
 	}
 	// 4. random dictionaries
 	n := 12000
